@@ -6,6 +6,10 @@ Streams (all derived from run.seed):
   general    random float32 tensors: codes exact, 'auto' scales within relative 2^-18 of the exact
              model, 'auto_po2' scales exact outside the band around sqrt(2)*2^k (device 3);
   absorb     |x| far above the scale: the straight-through idiom x + (-x + s*k) loses s*k (finding);
+  order      NON-ASCENDING list scale_axis ([1,0], [2,0], [3,1,0] ...) with list / int / no elements_per_scale,
+             exact regime: bit for bit against the model, all grouping clauses against the SPEC groups (a set
+             of (axis, elements) pairs), and against the ascending spelling of the same pairs on the real code
+             (clause axes_order_irrelevant); an exception is a returns_output failure;
   malformed  the assertion / ValueError paths of _validate_axis_and_eps;
   static     _get_scaling_axis / _get_unrolled_shape / _get_rolled_back_shape on their own.
 Independently of the model every real output is judged by the clause oracle (Python Fractions):
@@ -97,6 +101,40 @@ def gen_ternary(rng, tier):
   for a, xs in ((1.0, [1e8, -1e8, 2.0 ** 25, 0.5, 0.25, 0.0]),):
     cases.append(dict(stream="absorb", q="ternary", shape=[len(xs)], x=np.array(xs, dtype=np.float32), alpha=a,
                       thr=None, unrolls=5, ch_last=True))
+  return cases
+
+
+def gen_order(rng, tier):
+  """binary with a data-dependent scale and a list scale_axis that is NOT ascending (fix round N: the order of
+  the (axis, elements_per_scale) pairs is free; the unchanged code raised `Incompatible shapes`, or — with
+  elements_per_scale 1 — grouped silently wrong).  `twin` = the ascending spelling of the same pairs."""
+  n = 30 if tier == "quick" else 160
+  cases = []
+  planted = [([4, 4], [1, 0], [2, 2]), ([4, 4], [1, 0], [1, 1]), ([4, 2, 8], [2, 0], [4, 2]), ([2, 4, 2, 4], [2, 0], 2),
+             ([2, 4, 4], [2, 0, 1], [2, 1, 4]), ([2, 2, 4, 4], [3, 1], [2, 1])]
+  kinds = ["plain", "plain", "sparse", "zero_channel", "one_big"]
+  while len(cases) < n:
+    if len(cases) < len(planted):
+      sh, sa, eps = planted[len(cases)]
+    else:
+      sh = A.shapes(rng, 1, max_elems=128, ranks=(2, 3, 4))[0]
+      rank = len(sh)
+      k = int(rng.integers(2, rank + 1))
+      sa = [int(a) for a in rng.choice(rank, size=k, replace=False)]
+      if sa == sorted(sa):
+        sa = sa[::-1]
+      t = rng.random()
+      facs = [int(rng.choice([d for d in (1, 2, 4, 8) if sh[a] % d == 0])) for a in sa]
+      eps = None if t < 0.15 else (int(min(facs)) if t < 0.45 else facs)
+    order = sorted(range(len(sa)), key=lambda j: sa[j])
+    twin = ([sa[j] for j in order], [eps[j] for j in order] if isinstance(eps, list) else eps)
+    alpha = ["auto", "auto_po2"][int(rng.integers(0, 2))]
+    mn = mx = None
+    if alpha == "auto_po2" and rng.random() < 0.3:
+      mn, mx = int(rng.integers(-8, 1)), int(rng.integers(-2, 6))
+    x = A.exact_tensor(rng, sh, kinds[int(rng.integers(0, len(kinds)))])
+    cases.append(dict(stream="order", q="binary", shape=sh, x=x, alpha=alpha, use01=bool(rng.random() < 0.3),
+                      ch_last=bool(rng.random() < 0.7), sa=sa, eps=eps, mn=mn, mx=mx, twin=twin))
   return cases
 
 
@@ -321,8 +359,11 @@ def run(run, tier):
   rng = np.random.default_rng(run.seed)
   eps32 = F(float(np.float32(K.epsilon())))
   cases = gen_binary(rng, tier) + gen_ternary(rng, tier)
+  # own generator: the older streams keep their cases
+  cases += gen_order(np.random.default_rng([run.seed, 14]), tier)
   run.extra["rule"] = ("binary/ternary configs (alpha None/const/auto/auto_po2, use_01, thresholds, scale_axis int/list, "
-                       "elements_per_scale int/list, exponent bounds, both data formats, unrolls) x tensors of rank 1-4: "
+                       "elements_per_scale int/list, exponent bounds, both data formats, unrolls; NON-ASCENDING list scale_axis with "
+                       "list/int/no elements_per_scale, each also compared with its ascending spelling) x tensors of rank 1-4: "
                        "exact-regime dyadics incl. all-zero, zero channel, one big element, tiny/huge magnitudes, "
                        "threshold ties; general random float32; absorption points; malformed configs. A case is "
                        "non-trivial when it has a data-dependent scale or touches a threshold/zero branch.")
@@ -337,12 +378,28 @@ def run(run, tier):
       # property on this input (not an infrastructure error of the check)
       run.case(key=("raises", len(run.nontrivial)), nontrivial=True)
       run.count("impl-raises")
-      run.violate("returns_output", dict(quantizer=c["q"], alpha=str(c["alpha"]), error=type(e).__name__),
-                  {"case": label(c), "error": str(e)[:300]}, mirrored=False)
+      key = dict(quantizer=c["q"], alpha=str(c["alpha"]), error=type(e).__name__)
+      if "twin" in c:
+        key["why"] = "non-ascending-scale-axis-list"    # names the repaired defect that is back; nothing is downgraded
+      run.violate("returns_output", key, {"case": label(c), "error": str(e)[:300]}, mirrored=False)
       impl.append(None)
       lines.append(line_of(c, xste, eps32))
       continue
     lines.append(line_of(c, xste, eps32))
+    if "twin" in c:
+      # the SAME pairs listed in ascending order: same output, same q.scale, bit for bit
+      run.count("clause:axes_order_irrelevant")
+      try:
+        _q2, y2, sc2 = impl_call(Q, K, tf, dict(c, sa=c["twin"][0], eps=c["twin"][1]))
+        same = bool(np.array_equal(y, y2) and np.array_equal(np.asarray(sc), np.asarray(sc2)))
+        other = dict(y=[float(v) for v in np.asarray(y2).ravel()[:8]], scale=[float(v) for v in np.asarray(sc2).ravel()[:8]])
+      except Exception as e:  # pylint: disable=broad-except
+        same, other = False, dict(error=type(e).__name__ + ": " + str(e)[:200])
+      if not same:
+        run.violate("axes_order_irrelevant", dict(quantizer="binary", alpha=str(c["alpha"])),
+                    {"case": label(c), "listed": dict(y=[float(v) for v in np.asarray(y).ravel()[:8]],
+                                                      scale=[float(v) for v in np.asarray(sc).ravel()[:8]]),
+                     "ascending_spelling": other}, mirrored=False)
     if not (np.isfinite(y).all() and np.isfinite(sc).all()):
       run.case(key=("nonfinite", len(run.nontrivial)), nontrivial=True)
       run.count("impl-nonfinite")
@@ -372,7 +429,7 @@ def run(run, tier):
     mE = dict(out=A.dec(Em["out"]), scales=A.dec(Em["scales"]), codes=A.dec(Em["codes"]))
     run.compared += 1
     mirrored = True
-    if c["stream"] in ("exact", "absorb"):
+    if c["stream"] in ("exact", "absorb", "order"):
       if band:
         run.count("tie:band")          # either neighbour admissible: judged by the clause oracle only
         mirrored = (mF["out"] == y)
@@ -473,9 +530,27 @@ def run(run, tier):
       except Exception as e:  # pylint: disable=broad-except
         want.append("raises")
   K.set_image_data_format("channels_last")
+  def spec_unrolled(sh, sa, eps):
+    """the documented unrolling, from the SET of (axis, elements) pairs: axis a becomes the two axes
+    (shape[a] // elements, elements); returns (unrolled shape, positions of the outer axes in list order)"""
+    axes = sa if isinstance(sa, list) else [sa]
+    fac = dict(zip(axes, eps if isinstance(eps, list) else [eps] * len(axes)))
+    out, at = [], {}
+    for d, n in enumerate(sh):
+      if d in fac:
+        at[d] = len(out)
+        out += [n // fac[d], fac[d]]
+      else:
+        out.append(n)
+    return out, sorted(at.values())
+
   for sh, sa, eps in [([16, 32], 1, 4), ([16, 32], [0, 1], [2, 4]), ([4, 8, 8, 16], [2, 3], [2, 4]),
                       ([4, 8, 8, 16], [1, 3], 2), ([8], 0, 2), ([2, 4, 8], [0, 1, 2], [2, 2, 2]),
-                      ([2, 4, 8], 2, 8), ([2, 4, 8], [1], [4])]:
+                      ([2, 4, 8], 2, 8), ([2, 4, 8], [1], [4]),
+                      # non-ascending lists (the order of the pairs is free)
+                      ([4, 4], [1, 0], [2, 2]), ([16, 32], [1, 0], [4, 2]), ([4, 8, 8, 16], [3, 2], [4, 2]),
+                      ([4, 8, 8, 16], [3, 1], 2), ([2, 4, 8], [2, 0, 1], [2, 2, 2]), ([2, 4, 8], [2, 0], [1, 1]),
+                      ([2, 4, 8], [1, 2, 0], [4, 8, 1]), ([4, 2, 4, 8], [2, 0], [2, 4]), ([4, 2, 4, 8], [3, 0, 2], 2)]:
     sl.append(dict(op="shapes", shape=sh, sa=sa, eps=eps))
     try:
       sa2, eps2 = helper(Q._validate_axis_and_eps, list(sh), sa, eps)
@@ -484,6 +559,16 @@ def run(run, tier):
       want.append(dict(unrolled=list(u), uaxes=(ua if isinstance(ua, list) else [ua]), rolled=list(rb)))
     except Exception as e:  # pylint: disable=broad-except
       want.append("raises:" + type(e).__name__)
+    # clause on the REAL helpers (independent of the model): validate -> unroll gives the documented unrolled
+    # shape whatever the order of the list, and rolling back returns to the input shape
+    su, sua = spec_unrolled(sh, sa, eps)
+    ok = isinstance(want[-1], dict) and want[-1]["unrolled"] == su and sorted(want[-1]["uaxes"]) == sua \
+        and want[-1]["rolled"] == list(sh)
+    run.count("clause:unrolled_shape:" + ("ok" if ok else "FAIL"))
+    if not ok:
+      run.violate("unrolled_shape", dict(quantizer="binary", helper="_get_unrolled_shape"),
+                  dict(shape=sh, scale_axis=sa, elements_per_scale=eps, helpers_returned=want[-1],
+                       expected=dict(unrolled=su, uaxes=sua, rolled=list(sh))), mirrored=False)
   so = core.run_driver("C04", sl)
   for l, w, o in zip(sl, want, so):
     run.case(key=("static", core.json.dumps(l, sort_keys=True)), nontrivial=True)
